@@ -236,21 +236,26 @@ func runC10(c *eng.Ctx) {
 						okM := eng.DominatedBy(f, ret, ms, nil)
 						okP := eng.DominatedBy(f, ret, per, nil)
 						if !okM && !okP {
-							// both parts inside one loop over the requested keys: every iteration does both
-							inLoop := false
-							for _, m := range ms {
-								for _, pe := range per {
-									if eng.DominatedBy(f, m.Instr, []eng.Site{pe}, nil) || eng.DominatedBy(f, pe.Instr, []eng.Site{m}, nil) {
-										cm, _ := eng.GuardingConds(f, m.Instr)
-										for _, cd := range cm {
-											if strings.Contains(p.Desc(cd), "HasNext()") || isAnyLoopCond(cd) {
-												inLoop = true
+							// both parts run once per requested key: each sits in a loop over an iterator of the same key set
+							overKeys := func(sites []eng.Site) bool {
+								for _, st := range sites {
+									cds, _ := eng.GuardingConds(f, st.Instr)
+									for _, cd := range cds {
+										if eng.DependsOn(cd, func(x ssa.Value) bool {
+											cl, ok := x.(*ssa.Call)
+											if !ok {
+												return false
 											}
+											callee := cl.Common().StaticCallee()
+											return callee != nil && baseName(callee.Name()) == "Iterator" && len(cl.Common().Args) > 0 && cl.Common().Args[0] == ssa.Value(f.Params[1])
+										}) {
+											return true
 										}
 									}
 								}
+								return false
 							}
-							if inLoop {
+							if overKeys(ms) && overKeys(per) {
 								okM, okP = true, true
 							}
 						}
